@@ -33,6 +33,7 @@ Inductive ustate :=
 | UFinished                   (* function returned or exit called: ABTI_ythread_exit in progress *)
 | UCbS (k : cbk) (stage : nat) (* context saved; callback k in progress on its behalf *)
 | UBlocked
+| UHandoff                    (* BLOCKED joiner whose count was dropped by the terminating unit that is about to jump to it *)
 | UResuming                   (* READY stored by a resumer, push pending *)
 | UCancelling                 (* cancel request seen at a scheduling point; joiner being woken *)
 | UTerm
@@ -67,7 +68,8 @@ Record urec := mkU {
   adopted : bool        (* existed before the history started (primary ULT, schedulers) *)
 }.
 
-Record prec := mkP { q : list nat; nb : Z }.
+Record prec := mkP { q : list nat; nb : Z;
+                     cu : list nat (* ghost: units counted in nb, one entry per outstanding increment *) }.
 
 Record st := mkS {
   un : nat -> urec;
@@ -76,7 +78,7 @@ Record st := mkS {
 }.
 
 Definition u0 : urec := mkU UNone 0 0 false false false false false None None 0 JW0 true None None [] 0 0 false.
-Definition init : st := mkS (fun _ => u0) (fun _ => mkP [] 0) (fun _ _ => false).
+Definition init : st := mkS (fun _ => u0) (fun _ => mkP [] 0 []) (fun _ _ => false).
 
 Definition upd {A} (f : nat -> A) (t : nat) (v : A) : nat -> A :=
   fun x => if Nat.eqb x t then v else f x.
@@ -218,14 +220,14 @@ Definition step (s : st) (e : ev) : option st :=
         if ok then
           let pr := po s p in
           Some (mkS (upd (un s) u (with_ust r UQueued))
-                    (upd (po s) p (mkP (if tail then q pr ++ [u] else u :: q pr) (nb pr))) (seen s))
+                    (upd (po s) p (mkP (if tail then q pr ++ [u] else u :: q pr) (nb pr) (cu pr))) (seen s))
         else None
       else None
   | EPop p None _ => match q (po s p) with [] => Some s | _ => None end
   | EPop p (Some u) tail =>
       let pr := po s p in
       let r := un s u in
-      let popped := Some (mkS (upd (un s) u (with_ust r UPopped)) (upd (po s) p (mkP (remove1 u (q pr)) (nb pr))) (seen s)) in
+      let popped := Some (mkS (upd (un s) u (with_ust r UPopped)) (upd (po s) p (mkP (remove1 u (q pr)) (nb pr) (cu pr))) (seen s)) in
       match ust r with
       | UQueued =>
           if tail then (if Nat.eqb (last (q pr) (S u)) u then popped else None)
@@ -237,7 +239,7 @@ Definition step (s : st) (e : ev) : option st :=
       let r := un s u in
       match ust r with
       | UQueued => if inb u (q pr) then
-                     Some (mkS (upd (un s) u (with_ust r UPopped)) (upd (po s) p (mkP (remove1 u (q pr)) (nb pr))) (seen s))
+                     Some (mkS (upd (un s) u (with_ust r UPopped)) (upd (po s) p (mkP (remove1 u (q pr)) (nb pr) (cu pr))) (seen s))
                    else None
       | _ => None
       end
@@ -299,7 +301,7 @@ Definition step (s : st) (e : ev) : option st :=
       if Nat.eqb (migs r) 0 then
         match v, ust r with
         | 1%Z, UChecked => Some (set_u s u (with_ust_ost r URunning 1))
-        | 1%Z, UBlocked => (* join hand-off / resume_*_to: the caller jumps to a blocked unit *)
+        | 1%Z, UBlocked | 1%Z, UHandoff => (* resume_*_to / join hand-off: the caller jumps to a blocked unit *)
             Some (set_u s u (with_ust_ost r URunning 1))
         | 1%Z, UPopped | 1%Z, UCreated => (* yield_to / create_to / revive_to / exit_to: run without a request check *)
             Some (set_u s u (with_ust_ost r URunning 1))
@@ -313,8 +315,10 @@ Definition step (s : st) (e : ev) : option st :=
             | Some o =>
                 let ro := un s o in
                 if Nat.eqb (upool r) (upool ro) && inb (upool r) (cnt ro) then
+                  let pr := po s (upool r) in
                   Some (mkS (upd (upd (un s) o (with_cnt ro (remove1 (upool r) (cnt ro))))
-                                 u (with_cnt (with_ust_ost r UBlocked 2) (upool r :: cnt r))) (po s) (seen s))
+                                 u (with_cnt (with_ust_ost r UBlocked 2) (upool r :: cnt r)))
+                            (upd (po s) (upool r) (mkP (q pr) (nb pr) (u :: remove1 o (cu pr)))) (seen s))
                 else None
             | None => None
             end
@@ -383,11 +387,11 @@ Definition step (s : st) (e : ev) : option st :=
                  | _, _ => true
                  end then
                 Some (mkS (upd (un s) u (with_cnt (with_ust r (UCbS k 2)) (p :: cnt r)))
-                          (upd (po s) p (mkP (q pr) (old + 1))) (seen s))
+                          (upd (po s) p (mkP (q pr) (old + 1) (u :: cu pr))) (seen s))
               else None
           | URunning => (* ABT_thread_yield_to: the caller pre-increments its own pool *)
               if Nat.eqb (upool r) p then
-                Some (mkS (upd (un s) u (with_cnt r (p :: cnt r))) (upd (po s) p (mkP (q pr) (old + 1))) (seen s))
+                Some (mkS (upd (un s) u (with_cnt r (p :: cnt r))) (upd (po s) p (mkP (q pr) (old + 1) (u :: cu pr))) (seen s))
               else None
           | _ => None
           end
@@ -399,7 +403,8 @@ Definition step (s : st) (e : ev) : option st :=
           let ok := if handoff then (match ust r with UBlocked => Nat.leb 1 n | _ => false end)
                     else if must_count (ust r) then Nat.leb 2 n else Nat.leb 1 n in
           if ok then
-            Some (mkS (upd (un s) u (with_cnt r (remove1 p (cnt r)))) (upd (po s) p (mkP (q pr) (old - 1))) (seen s))
+            Some (mkS (upd (un s) u (with_cnt (if handoff then with_ust r UHandoff else r) (remove1 p (cnt r))))
+                      (upd (po s) p (mkP (q pr) (old - 1) (remove1 u (cu pr)))) (seen s))
           else None
       else None
   | EStart u =>
